@@ -5,9 +5,9 @@ from typing import Any, Dict, List
 VARIANTS: List[Dict[str, Any]] = []
 
 
-def V(id: str, prop: str, rule: str, file: str, old: str, new: str, expect: str = 'fire', names: Any = (), more: Any = ()) -> None:
+def V(id: str, prop: str, rule: str, file: str, old: str, new: str, expect: str = 'fire', names: Any = (), more: Any = (), not_for: Any = ()) -> None:
     edits = [('src/zeroconf/' + file, old, new)] + [('src/zeroconf/' + f, o, n) for f, o, n in more]
-    VARIANTS.append({'id': id, 'property': prop, 'rule': rule, 'edits': edits, 'expect': expect, 'names': list(names)})
+    VARIANTS.append({'id': id, 'property': prop, 'rule': rule, 'edits': edits, 'expect': expect, 'names': list(names), 'not_for': list(not_for)})
 
 
 DNS = '_dns.py'
@@ -1022,3 +1022,48 @@ V('c16-qu-exemption-for-responses-too', 'C16', 'C16.GUARD', LSF,
 V('c16-twin-qu-exemption-demorgan', 'C16', 'C16.GUARD', LSF,
   "            and not (self.last_message.is_query() and self.last_message.has_qu_question())\n",
   "            and (not self.last_message.has_qu_question() or not self.last_message.is_query())\n", expect='silent')
+
+# ---------------------------------------------------------------- round 10: iterative pointer following, resume position kept (twin) / lost
+_ITER_OLD_TAIL = """            linked_labels = self._name_cache.get(link_py_int)
+            if linked_labels is None:
+                linked_labels = []
+                seen_pointers.add(link_py_int)
+                if len(seen_pointers) > MAX_DNS_LABELS:
+                    # Every pointer we follow recurses one level deeper, a name
+                    # cannot have more pointers than labels
+                    raise IncomingDecodeError(
+                        f"Maximum dns compression pointers reached at {off} from {self.source}"
+                    )
+                self._decode_labels_at_offset(link, linked_labels, seen_pointers)
+                self._name_cache[link_py_int] = linked_labels
+            labels.extend(linked_labels)
+            if len(labels) > MAX_DNS_LABELS:
+                raise IncomingDecodeError(
+                    f"Maximum dns labels reached while processing pointer at {off} from {self.source}"
+                )
+            return off + DNS_COMPRESSION_POINTER_LEN
+"""
+_ITER_NEW_TAIL = """            %s
+            linked_labels = self._name_cache.get(link_py_int)
+            if linked_labels is not None:
+                labels.extend(linked_labels)
+                if len(labels) > MAX_DNS_LABELS:
+                    raise IncomingDecodeError(
+                        f"Maximum dns labels reached while processing pointer at {off} from {self.source}"
+                    )
+                return resume_at
+            seen_pointers.add(link_py_int)
+            if len(seen_pointers) > MAX_DNS_LABELS:
+                raise IncomingDecodeError(
+                    f"Maximum dns compression pointers reached at {off} from {self.source}"
+                )
+            off = link
+"""
+_ITER_MORE = [
+    (INCF, "        view = self.view\n        while off < self._data_len:\n            length = view[off]\n            if length == 0:\n                return off + DNS_COMPRESSION_HEADER_LEN\n",
+     "        view = self.view\n        resume_at = 0\n        while off < self._data_len:\n            length = view[off]\n            if length == 0:\n                return resume_at or off + DNS_COMPRESSION_HEADER_LEN\n"),
+]
+V('c01-iterative-pointers-resume-overwritten', 'C01', 'C01.PRIMS', INCF, _ITER_OLD_TAIL, _ITER_NEW_TAIL % "resume_at = off + DNS_COMPRESSION_POINTER_LEN", names=['resume'], more=_ITER_MORE)
+V('c02-iterative-pointers-resume-overwritten', 'C02', 'C02.FAITHFUL', INCF, _ITER_OLD_TAIL, _ITER_NEW_TAIL % "resume_at = off + DNS_COMPRESSION_POINTER_LEN", names=['resume'], more=_ITER_MORE)
+V('c01-twin-iterative-pointers-resume-kept', 'C01', 'C01.PRIMS', INCF, _ITER_OLD_TAIL, _ITER_NEW_TAIL % "if not resume_at:\n                resume_at = off + DNS_COMPRESSION_POINTER_LEN", expect='silent', more=_ITER_MORE,
+  not_for=['C02'])  # same names and positions, but the pointer targets are no longer memoised: the work bound C02 speaks of is not preserved
